@@ -1,8 +1,10 @@
 package pdrv
 
 import (
+	"bytes"
 	"errors"
 	"io"
+	"runtime"
 	"sync/atomic"
 
 	"github.com/jdillenkofer/pithos/internal/storage/database"
@@ -29,6 +31,20 @@ func (f *failingReader) Read(p []byte) (int, error) {
 	n, err := f.r.Read(p)
 	f.left -= n
 	return n, err
+}
+
+// goid returns the id of the calling goroutine ("goroutine N [running]:" header of its stack).
+// Fault points are counted and injected only on the goroutine that executes the call: stacks with
+// background workers (outbox flush loop, GC loop, dispatcher) open write transactions of their own,
+// and an error injected into one of those is not a fault of the call under test.
+func goid() string {
+	var buf [64]byte
+	n := runtime.Stack(buf[:], false)
+	f := bytes.Fields(buf[:n])
+	if len(f) >= 2 {
+		return string(f[1])
+	}
+	return ""
 }
 
 // ExecWithFaults executes call c for real exactly once, but first tries to make it
@@ -60,8 +76,9 @@ func (it *Interp) ExecWithFaults(c Call, maxK int) (attempts int) {
 	for k := 1; k <= maxK; k++ {
 		fired.Store(false)
 		var seen atomic.Int32
+		caller := goid()
 		verifhook.SetHandler(func(point string, fault bool, kv []any) error {
-			if !fault {
+			if !fault || goid() != caller {
 				return nil
 			}
 			// only write transactions are subject to fault injection
